@@ -53,6 +53,11 @@ def intervalHandlers : List (String × Handler) := [
   ("inew", hINew),
   ("iunion", intervalOp "union" mapUnion (fun a b => a || b)),
   ("icompl", intervalOp "compl" mapComplement (fun a b => a && !b)),
-  ("iinter", intervalOp "inter" mapIntersect (fun a b => a && b))]
+  ("iinter", intervalOp "inter" mapIntersect (fun a b => a && b)),
+  -- the same operations instantiated at uint64 (model.Addr) in the harness; the model is over `Int`
+  ("inewu", hINew),
+  ("iunionu", intervalOp "union" mapUnion (fun a b => a || b)),
+  ("icomplu", intervalOp "compl" mapComplement (fun a b => a && !b)),
+  ("iinteru", intervalOp "inter" mapIntersect (fun a b => a && b))]
 
 end Driver
